@@ -275,7 +275,8 @@ def run(ctx):
         for c in hirq.calls(f.hir["body"]):
             if (c.get("fn") or "").endswith("SeekFrom::Start") and c.get("args"):
                 seeks.add(hirq.render(hirq.strip(c["args"][0])))
-        keyx = [x for x in hirq.walk(f.hir["body"]) if x.get("k") == "bin" and x["op"] == "^" and "wrapping_add" in hirq.render(x)]
+        local_fns = {g.path: g for g in mpq.fn_list if g.kind != "Closure" and g.hir}
+        keyx = [dict(x, ln=ln_ or x.get("ln")) for x, ln_ in hirq.inline_local_calls(f.hir["body"], local_fns, lambda n_: n_.get("k") == "bin" and n_["op"] == "^" and "wrapping_add" in hirq.render(n_), depth=1, skip=re.compile(r"::crypto::|::compression::"))]
         if not keyx:
             ctx.bad(R_pos, "%s|no-formula" % path.split("::")[-1], f.where, "no (key + pos) ^ size expression", "FIX_KEY files cannot be decrypted here")
             continue
